@@ -26,6 +26,11 @@ CLAIMED = {
   text="seeded search over (event kind x opcode boundary x program) schedules in child processes; every run is one tape",
   note="opcode boundaries and call-outs only, not arbitrary instructions; upstream's own exemption before `save` opcodes; the C10 flavour adds one call per opcode to the generated code; background-cycle timing is the runtime's",
   ref="DESIGN.md 3 (C10)"),
+ "C05": dict(
+  technique="deterministic simulation of memory placement (no schedule involved): every input is evaluated on a heap copy, with 1-48 seeded continuation bytes after it, and ending exactly at a PROT_NONE guard page; faults raised inside native routines are recovered (SetPanicOnFault) and reported as reads past the end of the input; three worker configurations (AVX2, SSE, optdec)",
+  text="seeded search over (input x entry point x placement x continuation); identical results and no fault required; two known findings in the pre-generated native routines are reported as KNOWN-FINDING",
+  note="claim limited to memory placement/over-read (the property has no schedule); amd64 only; inputs are sampled from fragments, truncations, valid documents and SIMD-boundary lengths",
+  ref="DESIGN.md 3 (C05), 6 (F10, F13)"),
  "C06": dict(
   technique="deterministic simulation of the caller's side of ownership: seeded call histories over seeded pools that poison spare capacity on Put, caller buffers whose capacity ends at a PROT_NONE guard page or canaries, the caller scribbling over its inputs after each call; snapshot comparison of every result after every step; buffer-size and pool-limit knobs",
   text="seeded search over histories x buffer geometry x pool decisions x knobs; one history = one tape; crashes at the guard page are attributed to the run and replayed from a pre-generated tape",
